@@ -241,7 +241,7 @@ fn cmd_ast(listfile: &str) {
 
 /// consts <file>: each line `type<TAB>literal`; parses `const <type> ZC = <literal>;` through
 /// the real parser (range check included) and prints `ok` / `reject <class>` per line.
-fn cmd_consts(file: &str, allow_ub: bool) {
+fn cmd_consts(file: &str, allow_ub: bool, scope: &str) {
     let f = std::fs::File::open(file).expect("file");
     let out = std::io::stdout();
     let mut out = std::io::BufWriter::new(out.lock());
@@ -251,7 +251,15 @@ fn cmd_consts(file: &str, allow_ub: bool) {
         if parts.len() < 2 {
             continue;
         }
-        let text = format!("const {} ZC = {};\n", parts[0], parts[1]);
+        // where the constant is declared: at file level, in an interface, in a derived interface
+        let text = match scope {
+            "iface" => format!("interface IK {{\n  const {} ZC = {};\n}};\n", parts[0], parts[1]),
+            "derived" => format!(
+                "interface IB {{\n  method f();\n}};\ninterface IK : IB {{\n  method g();\n  const {} ZC = {};\n  error E;\n}};\n",
+                parts[0], parts[1]
+            ),
+            _ => format!("const {} ZC = {};\n", parts[0], parts[1]),
+        };
         let r = catch_unwind(AssertUnwindSafe(|| {
             idlc_ast::from_string(PathBuf::from("c.idl"), &text, allow_ub).map(|_| ()).map_err(|e| e.to_string())
         }));
@@ -272,7 +280,11 @@ fn main() {
     match args.get(1).map(String::as_str) {
         Some("front") => cmd_front(&args[2], args.iter().any(|a| a == "--plans"), args.iter().any(|a| a == "--doc")),
         Some("cmp-table") => plan::cmd_cmp_table(),
-        Some("consts") => cmd_consts(&args[2], args.iter().any(|a| a == "--ub")),
+        Some("consts") => cmd_consts(
+            &args[2],
+            args.iter().any(|a| a == "--ub"),
+            if args.iter().any(|a| a == "--iface") { "iface" } else if args.iter().any(|a| a == "--derived") { "derived" } else { "top" },
+        ),
         Some("ast") => cmd_ast(&args[2]),
         _ => {
             eprintln!("usage: vharness front <casefile> [--plans] [--doc] | cmp-table");
